@@ -450,3 +450,7 @@ def replay(path):
         print("VIOLATION property=%s replay=%s" % (PROP, path))
         print("  sig=%s :: %s" % (v["sig"], v["msg"][:300]))
     return 1 if res.violations else 0
+
+
+# (what later rounds of seeded changes added to the workload; part of the evidence's description of the check)
+RULE += "; " + 'values with U+2028 / U+2029 / U+0085; a 201 of MKCALENDAR / extended MKCOL without a status for a requested property counts as success for it'
